@@ -384,7 +384,8 @@ Definition route_ok (r : route) : bool :=
 Inductive target : Set :=
 | TWrite (k : upkey) (content_range_ok : bool)
 | TAbort (k : upkey) (uploaded : bool)
-| TRtw (slot_enabler : option (list N))   (* write enabler of the existing shares; None: no share there yet *)
+| TRtw (body_ok : bool) (slot_enabler : option (list N))
+    (* the CBOR body is decoded first (400); then the write enabler of the existing shares; None: no share there yet *)
 | TPlain.
 
 Definition auth_status (swissnum : list N) (required : list secret) (u : uploads) (rq : request) (t : target)
@@ -407,8 +408,9 @@ Definition auth_status (swissnum : list N) (required : list secret) (u : uploads
                       | inr _ => None
                       end
           end
-      | TRtw None => None
-      | TRtw (Some we) =>
+      | TRtw false _ => Some 400
+      | TRtw true None => None
+      | TRtw true (Some we) =>
           (* delegated: MutableShareFile.check_write_enabler (C24) refuses a different enabler *)
           match dict_get d S_WRITE_ENABLER with
           | None => Some 500
@@ -501,3 +503,5 @@ Definition ex_sw : list N := bytes_of_string "abcd".
 Definition ex_good_auth : option (list N) := Some (bytes_of_string "Tahoe-LAFS YWJjZA==").
 Definition ex_upload_hdr : option (list N) := Some (bytes_of_string "upload-secret dXV1dXV1dXU=").   (* b"uuuuuuuu" *)
 
+
+Definition is_byte (x : N) : Prop := x < 256.
